@@ -66,8 +66,8 @@ PROPS = {
                     S("walfault", 30, 600, vm=(0, 0), timeout=3000)],
         "selftests": [{"name": "fault_safety_stmt", "args": ["f"], "n": (1500, 40000)}],
         "trusted": [GO, BBOLT, "walfault: strace 6.1 fault injection (-e inject=<syscall>:error=<E>:when=<N>, counted per thread): the injected call is not executed by the kernel; what earlier calls wrote stays in the page cache and is what the next Open reads (no power loss)"],
-        "assumptions": ["a failed VFS/MetaStore call has no partial effect (a failed write adds nothing to the abstract file - in the bytes it leaves nothing or, as a short write returning (n/2, io.EOF), the first half of its bytes behind the valid chain, which recovery discards; a failed fsync leaves the data written; a failed deletion keeps the file), except a failed creation that may leave the empty file; no call fails although its effect reached the disk", "fault modes (every deletion fails / the next listing fails / a failed creation leaves the file) are in force while a counted fault is armed; a count inside a run of deletions is not used (Go map order)", "I/O error + restart + later power loss is outside the model (adopted unsynced data is treated as synced)"],
-        "rule": "seeded workloads with a fault armed before 1/2 of the calls (the k-th action from then fails, k in 0..5, alone or with fault modes, or only the mode 'every deletion fails'), targeted endings (fault in truncations, resets, sealing appends, stable writes; truncation whose deletions fail, Open whose clean-up fails; Open whose listing fails; rotation / truncation / reset whose Create leaves the file), in-process audits, restart, reopen, usability probe; oracles = acknowledged entries readable and unchanged in-process and after reopen, an Open without an injected fault succeeds; segcrash (byte level, one segment file): 24 (thorough 400) chains 'long batch whose fsync fails, shorter batch whose fsync fails, even shorter batch that succeeds or fails' with coinciding frame boundaries (failures drawn from fsync failure, write failure, SHORT write leaving the first half of the bytes), with and without an acknowledged prefix, then restart or a complete / torn crash image of the last write, plus random mixes of failing and succeeding appends; oracle = after recovery the segment serves the acknowledged entries or those plus a whole failed batch; walfault (implementation only, not compared with the model): the REAL WAL on production fs.FS + BoltMetaDB in a real directory (segment sizes 512..4096) runs seeded workloads (appends of 1-4 self-describing entries, head / tail truncations, retries, Set / SetUint64, Close / Open, waits for the rotation) in a child under strace with ONE injected syscall failure (fsync, fdatasync = bbolt commits, pwrite64, openat, fallocate, unlinkat, renameat, ftruncate x EIO/ENOSPC/EMFILE) at a position drawn from the calls a fault-free dry run makes on the WAL directory (4 positions per workload, a third of them metadata commits), then a clean reopen in a second process; oracles = reference of acknowledged entries / values audited in the running process after every call and after every Open (all-or-nothing for failed calls), no panic / hang, clean Open succeeds and accepts an append; distinct = distinct input lines",
+        "assumptions": ["a failed VFS/MetaStore call has no partial effect (a failed write adds nothing to the abstract file - in the bytes it leaves nothing or, as a short write returning (n/2, io.EOF), the first half of its bytes behind the valid chain, which recovery discards; a failed fsync leaves the data written; a failed deletion keeps the file), except a failed creation that may leave the empty file and a failed CommitState / SetStable that may have taken effect (fault mode 8); no segment-file fsync fails although its effect reached the disk", "fault modes (every deletion fails / the next listing fails / a failed creation leaves the file / a failed metadata commit or stable write lands) are in force while a counted fault is armed; a count inside a run of deletions is not used (Go map order)", "I/O error + restart + later power loss is outside the model (adopted unsynced data is treated as synced)"],
+        "rule": "seeded workloads with a fault armed before 1/2 of the calls (the k-th action from then fails, k in 0..5, alone or with fault modes, or only the mode 'every deletion fails'), targeted endings (fault in truncations, resets, sealing appends, stable writes; truncation whose deletions fail, Open whose clean-up fails; Open whose listing fails; rotation / truncation / reset whose Create leaves the file; tail truncation dropping the whole tail segment, rotation, head truncation, reset, stable write whose commit fails and lands, followed by appends that must be refused), in-process audits, restart, reopen, usability probe; oracles = acknowledged entries readable and unchanged in-process and after reopen, an Open without an injected fault succeeds; segcrash (byte level, one segment file): 24 (thorough 400) chains 'long batch whose fsync fails, shorter batch whose fsync fails, even shorter batch that succeeds or fails' with coinciding frame boundaries (failures drawn from fsync failure, write failure, SHORT write leaving the first half of the bytes), with and without an acknowledged prefix, then restart or a complete / torn crash image of the last write, plus random mixes of failing and succeeding appends; oracle = after recovery the segment serves the acknowledged entries or those plus a whole failed batch; walfault (implementation only, not compared with the model): the REAL WAL on production fs.FS + BoltMetaDB in a real directory (segment sizes 512..4096) runs seeded workloads (appends of 1-4 self-describing entries, head / tail truncations, retries, Set / SetUint64, Close / Open, waits for the rotation) in a child under strace with ONE injected syscall failure (fsync, fdatasync = bbolt commits, pwrite64, openat, fallocate, unlinkat, renameat, ftruncate x EIO/ENOSPC/EMFILE) at a position drawn from the calls a fault-free dry run makes on the WAL directory (4 positions per workload, a third of them metadata commits), then a clean reopen in a second process; oracles = reference of acknowledged entries / values audited in the running process after every call and after every Open (all-or-nothing for failed calls), no panic / hang, clean Open succeeds and accepts an append; distinct = distinct input lines",
     },
     "C09": {
         "streams": [S("format", 250, 8000, vm=(16, 400)), S("golden", 1, 1, vm=(8, 18), vm_maxlen=6000)],
